@@ -231,6 +231,20 @@ def run(case):
         U = zoo.offarr(seed, 1900, (n, 3, 3))
         fq = fem.Field(region, dim=9, values=U.reshape(n, 9).copy()).interpolate().reshape((3, 3) + region.dV.shape)
         c.close("tensor", "extrapolate of second-order tensor values", fem.tools.extrapolate(fq, region), U, scale=1.0)
+        # tensors of every order up to four (non-square, no symmetry): component (i, j, k, l) of the output belongs to component
+        # (i, j, k, l) of the input
+        for T in ((2,), (2, 3), (3, 2, 2), (2, 3, 2, 3), (3, 3, 3, 3)):
+            UT = zoo.offarr(seed, 1901 + len(T), (n,) + T)
+            nT = int(np.prod(T))
+            fT = fem.Field(region, dim=nT, values=UT.reshape(n, nT).copy()).interpolate().reshape(T + region.dV.shape)
+            for avg in (True, False):
+                got_T = np.asarray(fem.tools.extrapolate(fT, region, average=avg))
+                want_T = UT if avg else UT[mesh.cells.ravel()]
+                c.trans += 1
+                if got_T.shape != want_T.shape:
+                    c.bad(f"tensor{T}/average={avg}/shape", "shape of extrapolated tensor values", list(got_T.shape), list(want_T.shape))
+                    continue
+                c.close(f"tensor{T}/average={avg}", f"extrapolate of values with tensor shape {T}: component-wise", got_T, want_T, scale=1.0)
         # not averaged: values per cell corner
         exd = fem.tools.extrapolate(f.interpolate(), region, average=False)
         c.close("discontinuous", "extrapolate(average=False) returns the nodal values per cell", exd, np.eye(n)[mesh.cells.ravel()], scale=1.0)
